@@ -146,6 +146,9 @@ func buildNullCodec() (Codec, error) {
 }
 
 func buildFixedCodec(schema Schema, typ reflect.Type) (Codec, error) {
+	if schema.Object == nil {
+		return nil, fmt.Errorf("fixed schema does not have object")
+	}
 	if typ != nil {
 		if typ.Kind() != reflect.Array || typ.Elem().Kind() != reflect.Uint8 {
 			return nil, fmt.Errorf("type for fixed must be a byte array")
@@ -174,6 +177,9 @@ func buildStringCodec(typ reflect.Type, omit bool) (Codec, error) {
 }
 
 func buildArrayCodec(schema Schema, typ reflect.Type, omit bool) (Codec, error) {
+	if schema.Object == nil {
+		return nil, fmt.Errorf("array schema does not have object")
+	}
 	var itemType reflect.Type
 	if typ != nil {
 		if typ.Kind() != reflect.Slice {
@@ -191,6 +197,9 @@ func buildArrayCodec(schema Schema, typ reflect.Type, omit bool) (Codec, error) 
 }
 
 func BuildMapCodec(schema Schema, typ reflect.Type, omit bool) (Codec, error) {
+	if schema.Object == nil {
+		return nil, fmt.Errorf("map schema does not have object")
+	}
 	var valueType reflect.Type
 	if typ != nil {
 		if typ.Kind() != reflect.Map || typ.Key().Kind() != reflect.String {
